@@ -593,6 +593,7 @@ static vbi_bool vbi_proxy_queue_allocate( int dev_idx )
 static PROXY_QUEUE * vbi_proxy_queue_force_free( PROXY_DEV * p_proxy_dev )
 {
    PROXY_CLNT   * req;
+   PROXY_QUEUE  * p_head;
 
    pthread_mutex_lock(&proxy.clnt_mutex);
    pthread_mutex_lock(&p_proxy_dev->queue_mutex);
@@ -601,9 +602,12 @@ static PROXY_QUEUE * vbi_proxy_queue_force_free( PROXY_DEV * p_proxy_dev )
    {
       dprintf(DBG_MSG, "queue_force_free: buffer 0x%lX\n", (long)p_proxy_dev->p_sliced);
 
+      /* note the queue head changes as soon as the last client has released the buffer */
+      p_head = p_proxy_dev->p_sliced;
+
       for (req = proxy.p_clnts; req != NULL; req = req->p_next)
       {
-         if (req->p_sliced == p_proxy_dev->p_sliced)
+         if (req->p_sliced == p_head)
          {
             VERIF_TRACE("\"e\":\"force\",\"c\":%d,\"id\":%d", req->io.sock_fd, (int) req->p_sliced->timestamp);
             vbi_proxy_queue_release_sliced(req);
